@@ -21,6 +21,10 @@
  *   sendgen N HEX n seed [cuts=]  same, bytes = HEX ++ n pseudo-random bytes (splitmix64(seed))
  *   auth N full|view|bad [cuts=]  deliver the DES response to the pending challenge
  *   viewonly N 0|1                application sets cl->viewOnly
+ *   hookvo 0|1                    from now on the application's newClientHook makes new clients view-only
+ *   sendprov N FLAGS PLAIN [cuts=] extended-clipboard Provide: ClientCutText with length -(4+z), the 4
+ *                                 flag bytes FLAGS (hex) and z = zlib compress(PLAIN) (PLAIN = hex of
+ *                                 the stream of <be32 size><data> records, built by the generator)
  *   eof N                         peer closes; server notices on its next read
  *   pump                          rfbProcessEvents(screen, 0)  (deferred pointer delivery, reaping)
  *   tick MS                       advance the virtual clock
@@ -34,6 +38,7 @@
 #include <sys/time.h>
 #include <sys/select.h>
 #include "sess.h"
+#include <zlib.h>
 
 /* ------------------------------------------------------------------ virtual input */
 #define MAXC 16
@@ -138,6 +143,11 @@ static void cb_cut(char *text, int len, rfbClientPtr cl) {
 }
 static void cb_cutu8(char *text, int len, rfbClientPtr cl) {
   printf("cutu8 c%d %d %016llx\n", idof(cl), len, (unsigned long long)vh_fnv((unsigned char *)text, len > 0 ? (size_t)len : 0));
+}
+static int hook_vo;
+static enum rfbNewClientAction new_client_hook(rfbClientPtr cl) {
+  if (hook_vo) cl->viewOnly = TRUE;
+  return RFB_CLIENT_ACCEPT;
 }
 static void gone_hook(rfbClientPtr cl) {
   conn *c = (conn *)cl->clientData;
@@ -273,6 +283,7 @@ int main(void) {
       if (!scr) { fprintf(stderr, "no screen\n"); return 2; }
       scr->alwaysShared = TRUE;
       scr->kbdAddEvent = cb_kbd; scr->ptrAddEvent = cb_ptr; scr->setXCutText = cb_cut;
+      scr->newClientHook = new_client_hook;
       if (atoi(tok[4])) scr->setXCutTextUTF8 = cb_cutu8;
       if (atoi(tok[3])) { scr->authPasswdData = pws; scr->authPasswdFirstViewOnly = 1; scr->passwordCheck = rfbCheckPasswordByList; }
       scr->deferPtrUpdateTime = atoi(tok[5]);
@@ -316,6 +327,27 @@ int main(void) {
       else if (!strcmp(tok[2], "bad")) { rfbEncryptBytes(resp, pws[0]); resp[5] ^= 0x10; }
       else { bad(); continue; }
       deliver(c, resp, CHALLENGESIZE, cuts_of(tok, n, 3), one_of(tok, n, 3));
+      report();
+    } else if (!strcmp(tok[0], "sendprov") && n >= 4) {
+      conn *c = getconn(tok[1]); unsigned char fl[8], *pl, *msg; long fn, pn; uLongf zn; uint32_t l32;
+      size_t cap = strlen(tok[3]) / 2 + 1;
+      if (!c || !is_open(c)) { bad(); continue; }
+      fn = vh_unhex(tok[2], fl, sizeof fl);
+      pl = (unsigned char *)malloc(cap);
+      pn = vh_unhex(tok[3], pl, cap);
+      if (fn != 4 || pn < 0) { free(pl); bad(); continue; }
+      zn = compressBound((uLong)pn);
+      msg = (unsigned char *)malloc(12 + zn);
+      if (compress(msg + 12, &zn, pl, (uLong)pn) != Z_OK) { fprintf(stderr, "compress\n"); return 2; }
+      l32 = (uint32_t)(0u - (uint32_t)(4 + zn));
+      msg[0] = 6; msg[1] = msg[2] = msg[3] = 0;
+      msg[4] = (unsigned char)(l32 >> 24); msg[5] = (unsigned char)(l32 >> 16); msg[6] = (unsigned char)(l32 >> 8); msg[7] = (unsigned char)l32;
+      memcpy(msg + 8, fl, 4);
+      deliver(c, msg, 12 + zn, cuts_of(tok, n, 4), one_of(tok, n, 4));
+      free(pl); free(msg);
+      report();
+    } else if (!strcmp(tok[0], "hookvo") && n == 2) {
+      hook_vo = atoi(tok[1]) != 0;
       report();
     } else if (!strcmp(tok[0], "viewonly") && n == 3) {
       conn *c = getconn(tok[1]);
